@@ -178,4 +178,9 @@ def scaleSt (k : Nat) (st : St) : St := { st with stack := st.stack.map (k * ·)
 
 def wsPieces (l : List Ws) : List Piece := l.map .ws
 
+/-- set the CR flag of every line-break piece (`"\n"` ↦ `"\r\n"` or back) -/
+def setCR (f : Bool → Bool) : Piece → Piece
+  | .nl cr => .nl (f cr)
+  | p => p
+
 end NemoVerif.Layout
